@@ -69,3 +69,25 @@ PROPS["C10"] = {
                   "collision) was repaired in /repo (fix: 4bdfee3) and its witness is replayed from corpus/C10 on every run",
     "technique": "Lean 4 proof (freshness invariant of the name generator, pigeonhole for totality) + differential correspondence + output oracle",
 }
+
+PROPS["C11"] = {
+    "gen": [],
+    "lean": ["QV.Props.C11"],
+    "streams": ["c11"],
+    "rule": "each case is a generated object tree (depth ≤7, fan-out ≤6; widgets, the four layouts, spacers, actions, static "
+            "separators, menus, tab widgets, custom classes; explicit `actions` lists incl. menuAction(); one fifth with an illegal "
+            "construct: unknown type with a subtree, children under an action/spacer, stray spacer/action/non-widget) translated by "
+            "the real pipeline; the element skeleton (widget/layout/item/spacer/action/addaction with class and name, document "
+            "order) of the real .ui is compared with the Lean model (kind=model) and the Lean specification (kind=spec)",
+    "trusted_base": ["hand-written model of objtree.rs populate_node_rec and of the build dispatch in uigen/{form,object,layout}.rs; "
+                     "the per-object rule `assemble` is shared between model and spec and validated against real output only",
+                     "class-family flags in requests come from the harness's own table of Qt classes (docgen.family_of)"],
+    "assumptions": ["every object carries an id in this stream (generated names: C10)"],
+    "level_text": "proof: form_tree_preserved — for every object tree, flattening to the post-order vector with child indices and "
+                  "rebuilding by indices equals the form defined by direct recursion (each resolving object once, inside its parent, "
+                  "siblings in source order, unresolved subtrees absent); spec_names_preorder — document order of object elements = "
+                  "pre-order of the QML tree; actions_rule; build_total (no stuck index/fuel).",
+    "level_note": "trusted: Lean kernel; the element-kind rule per class (assemble) is shared by model and spec and is validated "
+                  "against the real pipeline on generated trees; ancestry tests themselves are C17's subject",
+    "technique": "Lean 4 proof (flatten/unflatten simulation over first-child/next-sibling forests) + differential correspondence on real .ui skeletons",
+}
